@@ -48,6 +48,34 @@ func VerifC14CheckEnvelope() {
 	}
 }
 
+// VerifC14ValidCRCAccepted: the other direction for the optional checksum - a
+// well-formed envelope that carries the CRC-32C of its payload (flag bit 0,
+// 12-byte header) is decoded as the envelope it encodes, for every payload up
+// to the bound and every message type: checkEnvelope accepts it and returns
+// exactly the payload. The checksum is computed here with the library function
+// (an uninterpreted function of the payload bytes in the symbolic run, the real
+// CRC in the native replay).
+func VerifC14ValidCRCAccepted() {
+	maxLen := vParam("maxlen", 8)
+	n := vNondetInt("n")
+	vAssume(0 <= n && n <= maxLen)
+	n = vConcretize(n)
+	body := vNondetBytes("payload", n)
+	typ := vNondetUint8("type")
+	data := append([]byte{}, envelopeMagicNumber...)
+	data = append(data, envelopeProtoV0, envelopeMinHeaderLen+4, 1, typ)
+	var sum [4]byte
+	Encoding.PutUint32(sum[:], crc32.Checksum(body, crc32cTable))
+	data = append(data, sum[:]...)
+	data = append(data, body...)
+	got, err := checkEnvelope(data, msgType(typ))
+	vAssert(err == nil, "a well-formed envelope with a matching checksum is accepted")
+	if err == nil {
+		vAssert(bytes.Equal(got, body), "and its payload is exactly the bytes after the 12-byte header")
+	}
+	vCover("done")
+}
+
 // ---- the typed wrappers -------------------------------------------------
 
 var vPBDecoded [][]byte // payloads handed to the protobuf decoder stand-in
